@@ -1,7 +1,8 @@
 from contracts.values import CONTRACTS as _C
+from contracts.repaired import FileNameSet
 from contracts.alignment import FormatLength
 from contracts.writer import StoredEditsNative
-CONTRACTS = list(_C) + [StoredEditsNative] + [FormatLength]
+CONTRACTS = list(_C) + [StoredEditsNative] + [FormatLength] + [FileNameSet]
 
 MANIFEST = {
     "category": "proof",
